@@ -30,6 +30,7 @@ func main() {
 	seed := fs.Uint64("seed", seedDefault, "PRNG seed")
 	n := fs.Int("n", 1000, "number of cases")
 	fs.StringVar(&replayFile, "replay", "", "replay cases from file (suite specific)")
+	fs.StringVar(&optFlag, "opt", "", "suite specific option")
 	_ = fs.Parse(os.Args[2:])
 	fn, ok := suites[suite]
 	if !ok {
@@ -43,3 +44,4 @@ func main() {
 }
 
 var replayFile string
+var optFlag string
